@@ -168,7 +168,7 @@ int main(int argc, char **argv) {
         if (pid == 0) {
             close(pfd[0]);
             for (int i = start; i < n; i++) {
-                alarm(5);
+                hc_alarm(5);
                 run_case(lines[i]); fflush(stdout);
                 if (write(pfd[1], "x", 1) != 1) _exit(4);
             }
